@@ -199,22 +199,31 @@ func collisionTwin(t *rapid.T, l Lookup) (Lookup, bool) {
 
 type keyOwner struct{ name, pat string }
 
-// collides reports whether l consults a memo key that an earlier, different (name, pattern) pair owns.
-func collides(seen map[string]keyOwner, l Lookup) bool {
+// memoKeys maps a memo key (name+"::"+pattern, as GlobFilter builds it) to every (name, pattern)
+// pair of the history that produces it. It over-approximates what the filter really memoised
+// (Matches short-circuits), which is what both uses need: excluding by construction must be
+// conservative, and naming a collision only needs a candidate.
+type memoKeys map[string]map[keyOwner]bool
+
+// collides reports whether l consults a memo key that an earlier, different (name, pattern) pair also produces.
+func collides(seen memoKeys, l Lookup) bool {
 	for _, p := range l.patterns() {
-		if o, ok := seen[l.Name+"::"+p]; ok && (o.name != l.Name || o.pat != p) {
-			return true
+		for o := range seen[l.Name+"::"+p] {
+			if o.name != l.Name || o.pat != p {
+				return true
+			}
 		}
 	}
 	return false
 }
 
-func remember(seen map[string]keyOwner, l Lookup) {
+func remember(seen memoKeys, l Lookup) {
 	for _, p := range l.patterns() {
 		k := l.Name + "::" + p
-		if _, ok := seen[k]; !ok {
-			seen[k] = keyOwner{l.Name, p}
+		if seen[k] == nil {
+			seen[k] = map[keyOwner]bool{}
 		}
+		seen[k][keyOwner{l.Name, p}] = true
 	}
 }
 
@@ -222,7 +231,7 @@ func genFilterCase(t *rapid.T) FilterCase {
 	avoid := rec.IsKnown(sigGlobCollision) && rapid.IntRange(0, 7).Draw(t, "probe") != 0
 	n := rapid.IntRange(1, 12).Draw(t, "nlookups")
 	var c FilterCase
-	seen := map[string]keyOwner{}
+	seen := memoKeys{}
 	for i := 0; i < n; i++ {
 		var l Lookup
 		derived := false
@@ -250,7 +259,7 @@ func runFilterCase(c FilterCase) []ev.Violation {
 	rec.Eval(1)
 	var vs []ev.Violation
 	long := filter.NewGlobFilter()
-	seen := map[string]keyOwner{}
+	seen := memoKeys{}
 	for i, l := range c.Lookups {
 		cfg := &domain.FilterConfig{Include: l.Include, Exclude: l.Exclude}
 		if err := cfg.Validate(); err != nil {
@@ -398,7 +407,7 @@ func genDiscoveryCase(t *rapid.T) DiscoveryCase {
 		pool = append(pool, genName(t))
 	}
 	n := rapid.IntRange(1, 12).Draw(t, "nsteps")
-	seen := map[string]keyOwner{}
+	seen := memoKeys{}
 	cur := make([]*FC, len(epURLs))
 	for i := 0; i < n; i++ {
 		st := DStep{EP: rapid.IntRange(0, len(epURLs)-1).Draw(t, "ep")}
@@ -426,7 +435,14 @@ func genDiscoveryCase(t *rapid.T) DiscoveryCase {
 						keys = append(keys, k)
 					}
 					sort.Strings(keys)
-					o := seen[keys[rapid.IntRange(0, len(keys)-1).Draw(t, "aimkey")]]
+					var owners []keyOwner
+					for o := range seen[keys[rapid.IntRange(0, len(keys)-1).Draw(t, "aimkey")]] {
+						owners = append(owners, o)
+					}
+					sort.Slice(owners, func(i, j int) bool {
+						return owners[i].name+"\x00"+owners[i].pat < owners[j].name+"\x00"+owners[j].pat
+					})
+					o := owners[0]
 					if tw, ok := collisionTwin(t, Lookup{Name: o.name, Include: []string{o.pat}}); ok {
 						f.Include = append(f.Include, tw.Include...)
 						f.Exclude = append(f.Exclude, tw.Exclude...)
@@ -440,25 +456,23 @@ func genDiscoveryCase(t *rapid.T) DiscoveryCase {
 		if st.SetFilter {
 			eff = st.Filter
 		}
-		if avoidGlob && eff != nil && !st.Fail {
-			// drop listed names whose memo keys an earlier different pair owns
+		if eff != nil && !st.Fail {
+			// (when the collision is a listed finding) drop listed names whose memo keys another pair,
+			// from an earlier step or earlier in this listing, also produces
 			kept := st.Listing[:0:0]
 			for _, nm := range st.Listing {
-				if collides(seen, Lookup{Name: nm, Include: eff.Include, Exclude: eff.Exclude}) {
+				l := Lookup{Name: nm, Include: eff.Include, Exclude: eff.Exclude}
+				if avoidGlob && collides(seen, l) {
 					rec.AddExtra("excluded_known", 1)
 					continue
 				}
+				remember(seen, l)
 				kept = append(kept, nm)
 			}
 			st.Listing = kept
 		}
 		if st.SetFilter {
 			cur[st.EP] = st.Filter
-		}
-		if eff != nil && !st.Fail {
-			for _, nm := range st.Listing {
-				remember(seen, Lookup{Name: nm, Include: eff.Include, Exclude: eff.Exclude})
-			}
 		}
 		c.Steps = append(c.Steps, st)
 	}
@@ -513,7 +527,7 @@ func runDiscoveryCase(c DiscoveryCase) []ev.Violation {
 		return "endpoint"
 	}
 	cur := make([]*FC, len(epURLs))
-	seen := map[string]keyOwner{}
+	seen := memoKeys{}
 	base := runtime.NumGoroutine()
 	take := func() *observation { return observe(w, reg, uni) }
 	prev := take()
@@ -624,11 +638,11 @@ func runDiscoveryCase(c DiscoveryCase) []ev.Violation {
 		if vs := judge(ref, o, opt); len(vs) > 0 {
 			// attribute filter-caused mismatches precisely
 			if f != nil {
-				fresh := filter.NewGlobFilter()
 				cfg := &domain.FilterConfig{Include: f.Include, Exclude: f.Exclude}
 				freshOK := true
 				for _, n := range st.Listing {
-					if fresh.Matches(cfg, n) != refMatches(f.Include, f.Exclude, n) {
+					// a new filter per name: one Apply over several names can collide with itself
+					if filter.NewGlobFilter().Matches(cfg, n) != refMatches(f.Include, f.Exclude, n) {
 						freshOK = false
 					}
 				}
